@@ -52,6 +52,12 @@ func runC15(c Case, st *Stats) error {
 		return fmt.Errorf("open failed: %v", err)
 	}
 	defer func() { b.Close() }()
+	// fault injection only (no trace): a faulty transaction fails in both databases at the same record
+	recA, recB := StartRecorder(dirA), StartRecorder(dirB)
+	recA.FaultOnly, recB.FaultOnly = true, true
+	defer recA.Stop()
+	defer recB.Stop()
+	faultsFired := 0
 	u := UniverseOf(c)
 	oo := obsFor(c.Cfg)
 	merges, effective, twice, writeAfter, reopenAfterWrite := 0, 0, 0, false, false
@@ -76,8 +82,25 @@ func runC15(c Case, st *Stats) error {
 			for j := range rs.Ops {
 				rs.Ops[j].Fill = false
 			}
+			var fa, fb *FaultSpec
+			if rs.Fault != nil {
+				fa = &FaultSpec{Step: i, Kind: rs.Fault.Kind, At: rs.Fault.At, Partial: rs.Fault.Partial}
+				fb = &FaultSpec{Step: i, Kind: rs.Fault.Kind, At: rs.Fault.At, Partial: rs.Fault.Partial}
+			}
+			recA.Fault, recB.Fault = fa, fb
+			recA.Mark(fmt.Sprintf("begin %d", i))
 			ta := a.RunTx(rs, true, nil)
+			recA.Mark(fmt.Sprintf("end %d", i))
+			recB.Mark(fmt.Sprintf("begin %d", i))
 			tb := b.RunTx(rs, true, nil)
+			recB.Mark(fmt.Sprintf("end %d", i))
+			recA.Fault, recB.Fault = nil, nil
+			if fa != nil && fa.Fired {
+				faultsFired++
+				if ta.Committed {
+					return fmt.Errorf("step %d: Commit reported success although a write error was injected", i)
+				}
+			}
 			if ta.Panic != "" || tb.Panic != "" || ta.BeginErr != nil || tb.BeginErr != nil {
 				st.Eval(c.JSON(), false, "skipped-panic")
 				return nil
@@ -139,8 +162,14 @@ func runC15(c Case, st *Stats) error {
 	if reopenAfterWrite {
 		classes = append(classes, "write-after-merge-then-reopen")
 	}
+	if faultsFired > 0 {
+		classes = append(classes, "failed-commit-left-uncommitted-records-on-disk")
+		if effective > 0 {
+			classes = append(classes, "effective-merge-in-history-with-failed-commit")
+		}
+	}
 	classes = append(classes, fmt.Sprintf("mode%d", c.Cfg.Mode))
-	st.Eval(c.JSON(), effective > 0 && hasDeadRecord(c), classes...)
+	st.Eval(c.JSON(), effective > 0 && (hasDeadRecord(c) || faultsFired > 0), classes...)
 	return nil
 }
 
@@ -169,6 +198,6 @@ func init() { register("C15", runC15) }
 
 func TestC15(t *testing.T) {
 	p := mixedParams{Modes: []int{0, 0, 1}, Segs: []int64{120, 200, 333}, Buckets: []string{"b", "c", "bb"},
-		MinB: 1, MaxB: 2, MaxSteps: 18, MaxOps: 4, ReopenPct: 8, MergePct: 18, Structs: true, Fill: true, NoSPop: true}
+		MinB: 1, MaxB: 2, MaxSteps: 18, MaxOps: 4, ReopenPct: 8, MergePct: 18, Structs: true, Fill: true, NoSPop: true, FaultPct: 12}
 	runProperty(t, "C15", genMixedCase(p), runC15)
 }
